@@ -43,6 +43,9 @@ func c04gen(r *gen.R) c04case {
 		c.msg = "" // empty message at a non-Print severity
 	}
 	c.lvl = gen.Pick(r, nonTerminating)
+	if len(hostileTitleLevels) > 0 && r.P(8) {
+		c.lvl = gen.Pick(r, hostileTitleLevels)
+	}
 	if c.lvl == slog.AlwaysLevel && strings.Trim(c.msg, "\n\r \t") == "" {
 		c.lvl = slog.InfoLevel // blank Print is the one-newline special case (C02)
 	}
@@ -102,7 +105,8 @@ func c04gen(r *gen.R) c04case {
 
 func c04main(c *Ctx) {
 	gen.ExtremeTimes = true
-	gen.TypedNilErrors = true
+	registerHostileTitles()
+	c.R.Max("levels_registered_under_titles_that_need_escaping", int64(len(hostileTitleLevels)))
 	log := mon.NewLog()
 	w := mon.New(log, "W", mon.ShapePlain)
 	c.Each(func(idx int, r *gen.R) {
@@ -271,8 +275,8 @@ func c04check(payload []byte, cs c04case) (out []cv) {
 			out = append(out, cv{"envelope-logger", fmt.Sprintf("logger member %s != name %q", l.Brief(), cs.name)})
 		}
 	}
-	if l := n.Get("level"); l == nil || l.Kind != oracle.JStr || l.Str != cs.lvl.String() {
-		out = append(out, cv{"envelope", fmt.Sprintf("level member %s != %q", l.Brief(), cs.lvl.String())})
+	if l := n.Get("level"); l == nil || l.Kind != oracle.JStr || l.Str != match.ReplInvalid(titleOf(cs.lvl)) {
+		out = append(out, cv{"envelope", fmt.Sprintf("level member %s != %q", l.Brief(), titleOf(cs.lvl))})
 	}
 	if m := n.Get("msg"); m == nil || m.Kind != oracle.JStr || m.Str != match.ReplInvalid(cs.msg) {
 		out = append(out, cv{"envelope-msg", fmt.Sprintf("msg member %s != message %q", clip(m.Brief(), 300), clip(cs.msg, 300))})
